@@ -4,14 +4,21 @@
    acc   : the set of (rule, args) the real matchers accepted      -> L1 against Check
    try   : one accepted application with the observed post-state   -> L2 Sound, NoPanic;
                                                                       L1 post = Apply (up to new names)
-   rej   : number of rejected tuples and those that were not no-ops -> L2 RejectIsNoop *)
+   rej   : number of rejected tuples and those that were not no-ops -> L2 RejectIsNoop
+   begin / rulef / rejf (engine flag --generic): the same on diagrams whose phases are NOT multiples of pi/4 ("to floating-point
+           tolerance").  No exact denotation exists in Ring and TLC cannot decide floating point: the harness compares pre and post
+           of every ACCEPTED application with its independent float reference evaluator (harness/src/refeval.rs, validated against
+           the exact Den by Trace_Tensor!RefEvalOK; 1e-9) and logs the boolean `close` -> L2 SoundFloat, NoPanic (a panic of the
+           matcher or of the accepted rule); rejf lists the REJECTED tuples whose checked form did not return false or did not
+           leave the graph unchanged (backend PartialEq and abs JSON) -> L2 RejectIsNoopFloat *)
 EXTENDS TraceLib, ZXSem, Rules, FiniteSets, FiniteSetsExt
 
 VARIABLES l, cur, den0, vset, viol, drift, stats
 vars == <<l, cur, den0, vset, viol, drift, stats>>
 
 Init == l = 1 /\ cur = EmptyG /\ den0 = <<>> /\ vset = {} /\ viol = <<>> /\ drift = <<>>
-        /\ stats = [diagrams |-> 0, tries |-> 0, sound |-> 0, l1same |-> 0, rejected |-> 0]
+        /\ stats = [diagrams |-> 0, tries |-> 0, sound |-> 0, l1same |-> 0, rejected |-> 0,
+                    generic_diagrams |-> 0, generic_tries |-> 0, generic_close |-> 0, generic_approx |-> 0, generic_rejected |-> 0, generic_toobig |-> 0, generic_changed |-> 0]
 
 ArgNames(g) == LET top == IF g.vs = {} THEN 0 ELSE Max(g.vs) IN g.vs \cup {top + 1, top + 6}
 Accepted1(g) == {t \in {<<R, <<a>>>> : R \in Rules1, a \in ArgNames(g)} : Check(t[1], g, t[2])}
@@ -48,6 +55,20 @@ Step(e) ==
               /\ stats' = [stats EXCEPT !.tries = @ + 1, !.sound = @ + (IF sound THEN 1 ELSE 0),
                                         !.l1same = @ + (IF same THEN 1 ELSE 0)]
               /\ UNCHANGED <<cur, den0, vset>>
+    [] e.k = "begin" -> stats' = [stats EXCEPT !.generic_diagrams = @ + 1] /\ UNCHANGED <<cur, den0, vset, viol, drift>>
+    [] e.k = "rulef" ->
+         /\ viol' = IF e.res \in {"panic", "check_panic"} THEN Append(viol, <<l, "NoPanic">>)
+                    ELSE IF e.res = "ok" /\ ~e.close THEN Append(viol, <<l, "SoundFloat">>)
+                    ELSE viol
+         /\ stats' = [stats EXCEPT !.generic_tries = @ + 1, !.generic_toobig = @ + (IF e.res = "toobig" THEN 1 ELSE 0),
+                                   !.generic_close = @ + (IF e.res = "ok" /\ e.close THEN 1 ELSE 0),
+                                   !.generic_approx = @ + (IF e.res = "ok" /\ e.approx THEN 1 ELSE 0),
+                                   !.generic_changed = @ + (IF e.res = "ok" /\ e.changed THEN 1 ELSE 0)]
+         /\ UNCHANGED <<cur, den0, vset, drift>>
+    [] e.k = "rejf" ->
+         /\ viol' = IF e.bad = <<>> THEN viol ELSE Append(viol, <<l, "RejectIsNoopFloat">>)
+         /\ stats' = [stats EXCEPT !.generic_rejected = @ + e.n]
+         /\ UNCHANGED <<cur, den0, vset, drift>>
     [] e.k = "rej" ->
          /\ viol' = IF e.bad = <<>> THEN viol ELSE Append(viol, <<l, "RejectIsNoop">>)
          /\ stats' = [stats EXCEPT !.rejected = @ + e.n]
